@@ -472,15 +472,45 @@ func c16Scenario(c c16Case, v *vlib.Verdict) {
 		for ti, tb := range r.tubes {
 			for side := 0; side < 2; side++ {
 				done := make(chan string, 1)
-				go func(t Tube) {
+				// bytes of the peer's stream that sit unread in this end's buffer (white box): they must all be
+				// returned, intact, before end-of-stream
+				buffered := -1
+				if rt, ok := tb.t[side].(*Reliable); ok {
+					rt.recvWindow.m.Lock()
+					buffered = rt.recvWindow.buffer.Len()
+					rt.recvWindow.m.Unlock()
+				}
+				multi := r.multiReader(ti, side)
+				go func(t Tube, ti, side int) {
 					if _, err := t.Write(make([]byte, 16)); err == nil {
 						done <- "Write succeeded"
 						return
 					}
 					buf := make([]byte, 1<<16)
+					drained := 0
 					for i := 0; i < 2000; i++ {
-						_, err := t.Read(buf)
+						n, err := t.Read(buf)
+						if n > 0 && buffered >= 0 {
+							r.mu.Lock()
+							off := tb.roff[side]
+							tb.roff[side] += n
+							r.mu.Unlock()
+							if want := vlib.Fill(c16Seed(ti, 1-side), off+n)[off:]; !multi && !bytes.Equal(buf[:n], want) {
+								done <- "Read returns bytes the peer did not write at that offset"
+								return
+							}
+							drained += n
+						}
 						if err == io.EOF {
+							if buffered > 0 && drained < buffered {
+								done <- fmt.Sprintf("buffered data lost: %d bytes were buffered unread but only %d were returned before end-of-stream", buffered, drained)
+								return
+							}
+							if buffered > 0 {
+								r.mu.Lock()
+								r.v.Label("buffered-data-drained-after-shutdown")
+								r.mu.Unlock()
+							}
 							done <- ""
 							return
 						}
@@ -494,11 +524,15 @@ func c16Scenario(c c16Case, v *vlib.Verdict) {
 						}
 					}
 					done <- "Read never reports end-of-stream"
-				}(tb.t[side])
+				}(tb.t[side], ti, side)
 				select {
 				case msg := <-done:
 					if msg != "" {
-						r.fail("C16:after-shutdown:"+strings.ReplaceAll(msg, " ", "-"), "tube %d side %d after both muxers stopped: %s", ti, side, msg)
+						key := msg
+						if i := strings.Index(key, ":"); i > 0 {
+							key = key[:i]
+						}
+						r.fail("C16:after-shutdown:"+strings.ReplaceAll(key, " ", "-"), "tube %d side %d after both muxers stopped: %s", ti, side, msg)
 					}
 				case <-time.After(30 * time.Second):
 					r.fail("C16:after-shutdown:call-blocks", "tube %d side %d: Write/Read after shutdown did not return within 30 s", ti, side)
